@@ -164,23 +164,36 @@ Proof.
 Qed.
 
 (* ------------------------------------------------------------------ Key.__init__ on the extracted key bytes *)
-Lemma key_import_secret fold wc secret nw c : length secret = 32%nat -> network_defined nw = true ->
-  lib_key_import fold wc (KBytes secret) (Some nw) c (Some true) =
+Lemma key_import_secret fold wc oc secret nw c :
+  length secret = 32%nat -> 0 < of_be secret < secp256k1_n -> network_defined nw = true ->
+  lib_key_import fold wc oc (KBytes secret) (Some nw) c (Some true) =
   Ok {| ko_private := true; ko_key := secret; ko_compressed := c; ko_network := nw; ko_format := FBin |}.
 Proof.
-  intros Hlen Hdef. unfold lib_key_import. cbn [lib_get_key_format]. unfold gkf_bytes. rewrite Hlen, Hdef.
-  reflexivity.
+  intros Hlen Hrange Hdef.
+  assert (G : gkf_bytes secret = kf_plain FBin true) by (unfold gkf_bytes; rewrite Hlen; reflexivity).
+  unfold lib_key_import. cbn [lib_get_key_format]. rewrite G, Hdef.
+  cbn [kf_plain kf_private kf_format kf_networks]. unfold key_private_checked. cbn [key_private_part].
+  rewrite (secret_range_true secret Hrange). reflexivity.
 Qed.
 
-Lemma key_import_pubc fold wc k0 kr nw c : length kr = 32%nat -> k0 = x02 \/ k0 = x03 -> network_defined nw = true ->
-  lib_key_import fold wc (KBytes (k0 :: kr)) (Some nw) c (Some false) =
+Lemma pub_strict_compressed oc k0 kr : length kr = 32%nat -> k0 = x02 \/ k0 = x03 -> oc (k0 :: kr) = true ->
+  pub_strict_ok oc (k0 :: kr) = true.
+Proof.
+  intros Hlen Hk Hoc. unfold pub_strict_ok. cbn [length]. rewrite Hlen, Hoc.
+  destruct Hk as [-> | ->]; reflexivity.
+Qed.
+
+Lemma key_import_pubc fold wc oc k0 kr nw c :
+  length kr = 32%nat -> k0 = x02 \/ k0 = x03 -> oc (k0 :: kr) = true -> network_defined nw = true ->
+  lib_key_import fold wc oc (KBytes (k0 :: kr)) (Some nw) c (Some false) =
   Ok {| ko_private := false; ko_key := k0 :: kr; ko_compressed := true; ko_network := nw; ko_format := FBinCompressed |}.
 Proof.
-  intros Hlen Hk Hdef.
+  intros Hlen Hk Hoc Hdef.
   assert (G : gkf_bytes (k0 :: kr) = kf_plain FBinCompressed false).
   { unfold gkf_bytes. cbn [length]. rewrite Hlen. destruct Hk as [-> | ->]; reflexivity. }
   unfold lib_key_import. cbn [lib_get_key_format]. rewrite G, Hdef.
-  cbn [kf_plain kf_private kf_format kf_networks key_public_part length]. rewrite Hlen. reflexivity.
+  cbn [kf_plain kf_private kf_format kf_networks key_public_part]. unfold pub_checked.
+  rewrite (pub_strict_compressed oc k0 kr Hlen Hk Hoc). cbn [length]. rewrite Hlen. reflexivity.
 Qed.
 
 (* ------------------------------------------------------------------ the text HDKey.wif() writes for a table row *)
@@ -193,6 +206,7 @@ Definition xkey_obj (priv : bool) (key : bytes) (c : bool) (nw : str) (chain : b
 Section XkeyText.
 Variable fold : bool.
 Variable wc : bool.
+Variable oc : bytes -> bool.
 Variables (n : network) (r : wif_row).
 Hypothesis Hn : In n all_networks.
 Hypothesis Hr : In r (nw_prefixes_wif n).
@@ -204,7 +218,8 @@ Hypothesis Hchain : length chain = 32%nat.
 (* key : the 32-byte secret for a private row, the 33-byte compressed point (02/03 first) for a public row *)
 Variables (k0 : byte) (kr : bytes).
 Hypothesis Hkr : length kr = 32%nat.
-Hypothesis Hk0 : if wr_private r then k0 = x00 else (k0 = x02 \/ k0 = x03).
+Hypothesis Hk0 : if wr_private r then k0 = x00 /\ 0 < of_be kr < secp256k1_n
+                 else ((k0 = x02 \/ k0 = x03) /\ oc (k0 :: kr) = true).
 
 Let prefix : bytes := wr_prefix r.
 Let priv : bool := wr_private r.
@@ -301,23 +316,23 @@ Proof.
              (be_bytes_length 1 depth) Hfp (be_bytes_length 4 child) Hchain Hkr).
   rewrite !of_be_be_bytes_small by (cbn; lia).
   unfold key, priv. destruct (wr_private r).
-  - subst k0. reflexivity.
-  - destruct Hk0 as [-> | ->]; reflexivity.
+  - destruct Hk0 as [-> _]. reflexivity.
+  - destruct Hk0 as [[-> | ->] _]; reflexivity.
 Qed.
 
 Lemma xk_inner nw c : network_defined nw = true ->
-  lib_key_import fold wc (KBytes key) (Some nw) c (Some (negb (negb priv))) =
+  lib_key_import fold wc oc (KBytes key) (Some nw) c (Some (negb (negb priv))) =
   Ok {| ko_private := priv; ko_key := key; ko_compressed := if priv then c else true; ko_network := nw;
         ko_format := if priv then FBin else FBinCompressed |}.
 Proof.
   intros Hdef. unfold key, priv. destruct (wr_private r); cbn [negb].
-  - apply key_import_secret; assumption.
-  - apply key_import_pubc; assumption.
+  - destruct Hk0 as [_ Hrange]. apply key_import_secret; assumption.
+  - destruct Hk0 as [Hk Hoc]. apply key_import_pubc; assumption.
 Qed.
 
 (* HDKey(text, network=hint, witness_type=wthint, multisig=mshint, compressed=c) *)
 Theorem xkey_import_lemma hint wthint mshint c :
-  lib_hdkey_import fold wc (KStr s) hint wthint mshint c =
+  lib_hdkey_import fold wc oc (KStr s) hint wthint mshint c =
   match lib_check_network hint (Some (prefix_networks prefix)) with
   | Err e => Err e
   | Ok nw =>
@@ -353,7 +368,7 @@ Proof.
         match xkey_fields bkey with
         | None => Err EOther
         | Some (pub, key0, depth0, fp0, child0, chain0) =>
-            match lib_key_import fold wc (KBytes key0) (Some nw) c (Some (negb pub)) with
+            match lib_key_import fold wc oc (KBytes key0) (Some nw) c (Some (negb pub)) with
             | Err e => Err e
             | Ok ko => Ok {| ho_key := ko; ho_chain := chain0; ho_depth := depth0; ho_fp := fp0; ho_child := child0;
                              ho_witness := match match prefix_witness prefix, wthint with [w], None => Some w | _, _ => wthint end with
@@ -372,7 +387,7 @@ Qed.
 
 (* HDKey.from_wif(text, network=hint, multisig=mshint, compressed=c) *)
 Theorem xkey_from_wif_lemma hint mshint c :
-  lib_hdkey_from_wif fold wc s hint mshint c =
+  lib_hdkey_from_wif fold wc oc s hint mshint c =
   match lib_wif_prefix_search prefix None mshint hint with
   | [] => Err EKey
   | m :: _ =>
